@@ -32,6 +32,11 @@ pub struct ShutdownScript {
     /// topics that only ever had one side (publisher only / subscriber only / requestor only)
     pub lonely: Vec<u8>,
     pub second_replier: bool,
+    /// a registration is still in flight when shutdown starts: a peer that grants no flow-control
+    /// credit on its registration stream, so the server's answer to it can never be delivered and
+    /// the task handling it keeps its copy of the topic's registration sender
+    #[serde(default)]
+    pub inflight_registration: bool,
 }
 
 pub fn gen_script(rng: &mut Rng) -> ShutdownScript {
@@ -45,6 +50,7 @@ pub fn gen_script(rng: &mut Rng) -> ShutdownScript {
         shutdown_after_ms: *rng.pick(&[0u64, 50, 500, 2_000, 7_000]),
         lonely: (0..rng.usize(0, 3)).map(|_| rng.below(3) as u8).collect(),
         second_replier: rng.chance(1, 2),
+        inflight_registration: rng.chance(1, 3),
     }
 }
 
@@ -159,6 +165,18 @@ async fn scenario(world: Rc<World>, sc: ShutdownScript) -> AResult<Report> {
             1 => keep.push(Box::new(ACTOR.scope(g, a.subscriber(&topic).with_decoder(StringCodec).open()).await?)),
             _ => keep.push(Box::new(ACTOR.scope(g, a.requestor(&topic).with_request_encoder(StringCodec).with_reply_decoder(StringCodec).open()).await?)),
         }
+    }
+    let mut _inflight_keep = None;
+    if sc.inflight_registration {
+        use selium_protocol::{Frame, SubscriberPayload, TopicName};
+        let gz = world.new_group();
+        let mut t = quinn::TransportConfig::default();
+        t.stream_receive_window(quinn::VarInt::from_u32(0));
+        let (ep, conn) = world.raw_trusted(gz, Some(t)).await?;
+        let topic = TopicName::try_from(if sc.n_pubsub_topics > 0 { "/live/topic0" } else { "/live/inflight" }).map_err(|e| anyhow::anyhow!("{e}"))?;
+        let s = tokio::time::timeout(Duration::from_secs(5), raw_open(&conn, Frame::RegisterSubscriber(SubscriberPayload { topic, retention_policy: 0, operations: vec![] }))).await;
+        tokio::time::sleep(Duration::from_millis(300)).await;
+        _inflight_keep = Some((ep, conn, s));
     }
     tokio::time::sleep(Duration::from_millis(sc.shutdown_after_ms)).await;
     let server = world.server.borrow().clone();
@@ -276,6 +294,11 @@ impl Family for ShutdownFamily {
     fn shrink(&self, body: &Value) -> Vec<Value> {
         let Ok(sc) = serde_json::from_value::<ShutdownScript>(body.clone()) else { return vec![] };
         let mut out = vec![];
+        if sc.inflight_registration {
+            let mut c = sc.clone();
+            c.inflight_registration = false;
+            out.push(c);
+        }
         if sc.n_pubsub_topics > 0 {
             let mut c = sc.clone();
             c.n_pubsub_topics -= 1;
